@@ -273,7 +273,9 @@ TEnd ==
   IF Len(E.hung) > 0 THEN Reject(HungLabel, <<E.hung>>)
   ELSE IF FaultyNotDropped THEN Reject("C07-failed-plugin-not-dropped", <<E.faulty>>)
   ELSE IF NotActivated # {} THEN Reject("C17-wellformed-not-activated", <<NotActivated>>)
-  ELSE IF Len(E.stuck) > 0 THEN Reject("C08-registration-stuck", <<E.stuck>>)
+  \* (a plugin that left - or was closed - before the accept loop got to it has no registration to complete)
+  ELSE IF \E i \in DOMAIN E.stuck : E.stuck[i] \notin dead /\ FaultyKey(E.stuck[i]) \notin DOMAIN done
+       THEN Reject("C08-registration-stuck", <<E.stuck>>)
   ELSE IF readers # {} \/ rlock # "" \/ swriter # "" THEN Reject("C08-not-quiescent", <<readers, rlock, swriter>>)
   ELSE Skip
 
